@@ -1,0 +1,133 @@
+//go:build verif
+
+package originium
+
+import (
+	"container/list"
+	"time"
+
+	"github.com/B1NARY-GR0UP/originium/pkg/logger"
+	"github.com/B1NARY-GR0UP/originium/types"
+)
+
+// This file exists only with the "verif" build tag. It exposes read-only views and a
+// stand-alone level manager to the external verification harness; it changes no behaviour.
+
+// VerifShape reports the number of immutable memtables, the length of the flush queue
+// and the number of tables per level.
+func (db *DB) VerifShape() (immutables int, queue int, levels []int) {
+	db.mu.RLock()
+	immutables = db.immutables.Len()
+	db.mu.RUnlock()
+	queue = len(db.flushC)
+	db.manager.mu.Lock()
+	for _, l := range db.manager.levels {
+		levels = append(levels, l.Len())
+	}
+	db.manager.mu.Unlock()
+	return
+}
+
+// VerifMarks reports nextTs and the two watermarks.
+func (db *DB) VerifMarks() (nextTs, readMark, commitMark uint64) {
+	db.oracle.Lock()
+	nextTs = db.oracle.nextTs
+	db.oracle.Unlock()
+	return nextTs, db.oracle.readMark.DoneUntil(), db.oracle.commitMark.DoneUntil()
+}
+
+// VerifReadTs returns the snapshot timestamp of the transaction.
+func (t *Txn) VerifReadTs() uint64 { return t.readTs }
+
+// VerifLevels is a level manager over a directory with a chosen version-discard watermark.
+type VerifLevels struct {
+	lm *levelManager
+	db *DB
+}
+
+func verifOracle(watermark uint64) *oracle {
+	o := newOracle()
+	if watermark > 0 {
+		o.readMark.Done(watermark)
+		for i := 0; o.readMark.DoneUntil() != watermark; i++ {
+			if i > 100000 {
+				panic("verif: watermark did not reach the requested value")
+			}
+			time.Sleep(10 * time.Microsecond)
+		}
+	}
+	return o
+}
+
+// NewVerifLevels creates a level manager over dir (tables already there are NOT loaded;
+// call Recover for that).
+func NewVerifLevels(dir string, l0Target, ratio, blockSize int, watermark uint64) *VerifLevels {
+	db := &DB{dir: dir, logger: logger.GetLogger(), immutables: list.New(), oracle: verifOracle(watermark)}
+	db.config = Config{L0TargetNum: l0Target, LevelRatio: ratio, DataBlockByteThreshold: blockSize}
+	lm := newLevelManager(db)
+	db.manager = lm
+	return &VerifLevels{lm: lm, db: db}
+}
+
+// Stop releases the goroutines of the private oracle.
+func (v *VerifLevels) Stop() { v.db.oracle.Stop() }
+
+// SetWatermark replaces the version-discard watermark.
+func (v *VerifLevels) SetWatermark(watermark uint64) {
+	old := v.db.oracle
+	v.db.oracle = verifOracle(watermark)
+	old.Stop()
+}
+
+func (v *VerifLevels) Flush(entries []types.Entry) error { return v.lm.flushToL0(entries) }
+func (v *VerifLevels) CheckAndCompact()                  { v.lm.checkAndCompact() }
+
+func (v *VerifLevels) CompactL0() {
+	v.lm.mu.Lock()
+	defer v.lm.mu.Unlock()
+	if len(v.lm.levels) > 0 && v.lm.levels[0].Len() > 0 {
+		v.lm.compactL0()
+	}
+}
+
+func (v *VerifLevels) CompactLN(n int) {
+	v.lm.mu.Lock()
+	defer v.lm.mu.Unlock()
+	if n >= 1 && len(v.lm.levels) > n && v.lm.levels[n].Len() > 0 {
+		v.lm.compactLN(n)
+	}
+}
+
+// Lookup is the table-level lookup used by DB.search: lower bound of key@ts over all
+// tables, accepted only for the same user key.
+func (v *VerifLevels) Lookup(key string, ts uint64) (types.Entry, bool) {
+	target := types.KeyWithTs(key, ts)
+	e, ok := v.lm.searchLowerBound(target)
+	if ok && types.IsSameKey(target, e.Key) {
+		return e, true
+	}
+	return types.Entry{}, false
+}
+
+// Recover drops the in-memory handles and rebuilds them from the files.
+func (v *VerifLevels) Recover() int64 {
+	lm := newLevelManager(v.db)
+	v.lm = lm
+	v.db.manager = lm
+	return lm.recover()
+}
+
+// Tables returns, per level, the table indices in list order.
+func (v *VerifLevels) Tables() [][]int {
+	v.lm.mu.Lock()
+	defer v.lm.mu.Unlock()
+	var res [][]int
+	for _, l := range v.lm.levels {
+		var idx []int
+		for e := l.Front(); e != nil; e = e.Next() {
+			idx = append(idx, e.Value.(tableHandle).levelIdx)
+		}
+		res = append(res, idx)
+	}
+	return res
+}
